@@ -286,7 +286,7 @@ def write_replay(ctx, payload):
 
 
 def write_evidence(ctx, pm, lean, violations_n):
-    obligations = len(pm.THEOREMS) + len(lean.get('side_conditions', []))
+    obligations = len(pm.THEOREMS) + len(lean.get('side_conditions', [])) + sum(len(l['theorems']) for l in getattr(pm, 'LINKS', []))
     discharged = lean.get('discharged', 0)
     cov = {
         'obligations': obligations,
@@ -310,6 +310,8 @@ def write_evidence(ctx, pm, lean, violations_n):
     }
     if lean.get('info'):
         cov['composition_theorems'] = lean['info']
+    if lean.get('links'):
+        cov['linking_theorems'] = lean['links']
     ev = {
         'property_id': ctx.prop,
         'tier': ctx.tier,
@@ -376,6 +378,37 @@ def lean_phase(ctx, pm):
                 else:
                     n += 1
             lean['discharged'] = n if not hits else 0
+            # linking theorems: theorems of this property that are stated over another property's theorems (e.g. the
+            # document-level join refinement extends C01's refinement). They are obligations of THIS check exactly when the
+            # component modules they need still build; when a component is broken, its own check reports that, and the
+            # link is recorded as skipped here instead of raising a second alarm for a property that may still hold.
+            links = []
+            for lk in getattr(pm, 'LINKS', []):
+                okn, outn, _ = lake_build(lk['needs'])
+                rec = {'target': lk['target'], 'needs': lk['needs']}
+                if not okn:
+                    rec['status'] = 'skipped: a component module does not build (reported by that property\'s own check)'
+                    links.append(rec)
+                    continue
+                okl, outl, _ = lake_build([lk['target']])
+                if not okl:
+                    rec['status'] = 'broken'
+                    lean['broken'].append('proof obligations no longer check: ' + '; '.join(failing_theorems(outl, lk['theorems'])))
+                    lean['build_log'] = outl[-4000:]
+                    links.append(rec)
+                    continue
+                _, _, lax = audit_axioms(ctx.prop + '_link', lk['theorems'], ctx.tmp)
+                bad = [t['name'] for t in lk['theorems'] if lax.get(t['name']) is None or not set(lax[t['name']]) <= ALLOWED_AXIOMS]
+                for b in bad:
+                    lean['broken'].append(f'theorem {b} not found by the audit or depends on {lax.get(b)}')
+                lean['axioms'].update(lax)
+                rec['status'] = 'checked' if not bad else 'broken'
+                rec['theorems'] = len(lk['theorems']) - len(bad)
+                lean['discharged'] += rec['theorems'] if not hits else 0
+                lean.setdefault('link_targets', []).append(lk['target'])
+                links.append(rec)
+            if links:
+                lean['links'] = links
             # composition theorems (e.g. Props/Pipeline.lean): built and audited for information. They follow from the
             # property theorems of several properties; when one no longer builds, the check of the component whose
             # theorem changed reports it, so this is recorded in the evidence and never raised as a violation here.
@@ -390,7 +423,7 @@ def lean_phase(ctx, pm):
                     info['log'] = outi[-1500:]
                 lean['info'] = info
             if ctx.tier == 'thorough' and not lean['broken']:
-                mods = [t for t in pm.LEAN_TARGETS]
+                mods = [t for t in pm.LEAN_TARGETS] + lean.get('link_targets', [])
                 rc, cout = run(['lake', 'env', 'leanchecker'] + mods, cwd=LEAN_DIR, timeout=3000)
                 lean['leanchecker'] = 'ok' if rc == 0 else cout[-1500:]
                 if rc != 0:
@@ -463,7 +496,7 @@ def main_check(pm, argv):
             print(f'VIOLATION property={prop} replay={path} no-failing-input-found')
             rc = 1
         write_evidence(ctx, pm, lean, len(new) if new else (1 if rc else 0))
-        print(f'{prop} {tier}: obligations {lean.get("discharged", 0)}/{len(pm.THEOREMS)} discharged, '
+        print(f'{prop} {tier}: obligations {lean.get("discharged", 0)}/{len(pm.THEOREMS) + sum(len(l["theorems"]) for l in getattr(pm, "LINKS", []))} discharged, '
               f'{ctx.evaluations} cases ({len(ctx.nontrivial_keys)} distinct non-trivial), '
               f'{len(ctx.disagreements)} model/impl disagreements, {len(new)} new violations, '
               f'{len(ctx.known_hits)} known findings, {ctx.wall():.1f}s')
